@@ -788,7 +788,16 @@ func (x *allegRun) txLine(t *aTx, h, now int64, before, after *AState, cls strin
 		if cls == "frozen" || cls == "openRequest" {
 			x.guards++
 		}
-		x.emit(strings.Join(append([]string{"guard", fmt.Sprintf("kind=%s val=%s", t.Op, t.Val)}, filterTok(pre, "q=", "s=", "c=")...), " "), "guard="+g)
+		// Validators.Iterate: records whose key is in the committed tree, with their current values
+		gt := filterTok(pre, "q=", "s=", "c=")
+		iter := map[string]*aVal{}
+		for a := range x.cst.Vals {
+			if v := before.Vals[a]; v != nil {
+				iter[a] = v
+			}
+		}
+		gt = append(gt, valTokens(iter)...)
+		x.emit(strings.Join(append([]string{"guard", fmt.Sprintf("kind=%s val=%s sa=%s", t.Op, t.Val, t.StakeAddr)}, gt...), " "), "guard="+g)
 	}
 }
 
@@ -807,11 +816,9 @@ func (x *allegRun) endLines(h, now int64, pre, afterBegin, beforeEnd, afterEnd *
 	// which branch of the election loop each popped validator takes (classification of the inputs)
 	{
 		mal := map[string]bool{}
-		if h > x.eo.BlockVotesDiff {
-			for a := range afterBegin.Susp {
-				if afterBegin.isFrozen(a) {
-					mal[a] = true
-				}
+		for a := range afterBegin.Susp {
+			if afterBegin.isFrozen(a) {
+				mal[a] = true
 			}
 		}
 		cnt := int64(0)
@@ -829,33 +836,21 @@ func (x *allegRun) endLines(h, now int64, pre, afterBegin, beforeEnd, afterEnd *
 			}
 		}
 	}
-	x.emit(strings.Join(append(append([]string{"elect", fmt.Sprintf("h=%d diff=%d minself=%d top=%d pop=%s", h, x.eo.BlockVotesDiff, st[0], st[1], listTok(pop))}, sb...),
+	x.emit(strings.Join(append(append([]string{"elect", fmt.Sprintf("h=%d minself=%d top=%d pop=%s", h, st[0], st[1], listTok(pop))}, sb...),
 		filterTok(beforeEnd.evTokens(), "v=")...), " "),
 		strings.Join(append([]string{fmt.Sprintf("active=%d el=%s", len(elected), listTok(elected))}, filterTok(afterEnd.evTokens(), "v=")...), " "))
 	// tally
 	o := x.eo
 	active := int64(len(elected))
-	req := 0
-	fy, fn := "", ""
 	if active > 0 {
-		req = fRequired(active, o.ValidatorVotePercentage, o.ValidatorVoteDecimals)
+		// the thresholds are integer arithmetic in the code; what float64 would have said is still
+		// counted, as a record of why it was replaced
+		req := int(xRequired(active, o.ValidatorVotePercentage, o.ValidatorVoteDecimals))
 		for n := 0; n <= voteTable; n++ {
-			fy += fmt.Sprint(alB01(fGuilty(n, req, o.AllegationPercentage, o.AllegationDecimals)))
-			fn += fmt.Sprint(alB01(fInnocent(n, req, o.AllegationPercentage, o.AllegationDecimals)))
-		}
-		if int64(req) != xRequired(active, o.ValidatorVotePercentage, o.ValidatorVoteDecimals) {
-			x.res.Distribution["float:required-differs-from-exact"]++
-		}
-		for n := 0; n <= voteTable; n++ {
-			if fGuilty(n, req, o.AllegationPercentage, o.AllegationDecimals) != xGuilty(int64(n), int64(req), o.AllegationPercentage, o.AllegationDecimals) {
-				x.res.Distribution["float:guilty-test-differs-from-exact"]++
-			}
 			if fInnocent(n, req, o.AllegationPercentage, o.AllegationDecimals) != xInnocent(int64(n), int64(req), o.AllegationPercentage, o.AllegationDecimals) {
-				x.res.Distribution["float:innocent-test-differs-from-exact"]++
+				x.res.Distribution["float:innocent-test-would-differ-from-exact"]++
 			}
 		}
-	} else {
-		fy, fn = "-", "-"
 	}
 	var pf []string
 	for _, a := range sortedKeys(beforeEnd.Total) {
@@ -866,9 +861,15 @@ func (x *allegRun) endLines(h, now int64, pre, afterBegin, beforeEnd, afterEnd *
 		}
 		pf = append(pf, fmt.Sprintf("%s:%s", s, p))
 	}
-	head := []string{"tally", fmt.Sprintf("h=%d now=%d active=%d %s req=%d fy=%s fn=%s pf=%s", h, now, active, x.optTok(), req, fy, fn, listTok(pf))}
+	head := []string{"tally", fmt.Sprintf("h=%d now=%d active=%d %s pf=%s", h, now, active, x.optTok(), listTok(pf))}
 	in := append(head, valTokens(pre.Vals)...)
+	// the validator records as they are when the tally runs (the slash charges the current stake address)
+	for _, t := range valTokens(afterEnd.Vals) {
+		in = append(in, "k="+t[2:])
+	}
 	in = append(in, filterTok(beforeEnd.evTokens(), "q=", "t=", "s=")...)
+	// the status records the tally reads are those the election pass of this EndBlock left
+	in = append(in, filterTok(afterEnd.evTokens(), "v=")...)
 	in = append(in, filterTok(beforeEnd.stakeTokens(), "T=", "E=", "D=", "B=", "U=")...)
 	out := append([]string{"tallied"}, filterTok(afterEnd.evTokens(), "q=", "t=", "s=")...)
 	out = append(out, filterTok(afterEnd.stakeTokens(), "T=", "E=", "D=", "B=", "U=")...)
